@@ -8,3 +8,8 @@ import Ypv.Props.C09
 #print axioms Ypv.C09.create_map_growth
 #print axioms Ypv.C09.fill_resolves
 #print axioms Ypv.C09.create_nothing_when_present
+#print axioms Ypv.C09.required_pure
+#print axioms Ypv.C09.required_flag_monotone
+#print axioms Ypv.C09.getRequired_pure
+#print axioms Ypv.C09.exists_pure
+#print axioms Ypv.C09.query_pure
